@@ -36,6 +36,7 @@ class Facts:
                   self.conds + list(conds), self.dims)
         f.pos_terms = set(self.pos_terms)
         f.lower = dict(self.lower)
+        f.upper = dict(getattr(self, "upper", {}))
         f.int_apps = dict(self.int_apps)
         return f
 
@@ -242,6 +243,8 @@ class Tr:
                 self.axioms.append(v >= self.poly(lb))
             except TypeError:
                 pass
+        if k == "app" and a.args[0] in getattr(F, "upper", {}):
+            self.axioms.append(v <= self.poly(F.upper[a.args[0]](*a.args[1:])))
         if k == "max":
             x, y = self.poly(a.args[0]), self.poly(a.args[1])
             self.axioms += [v >= x, v >= y, z3.Or(v == x, v == y)]
@@ -347,20 +350,54 @@ def cvc5_check(solver, timeout_s=20):
     return (first if first in ("sat", "unsat") else "unknown"), dt
 
 
+def merge_sums(p):
+    """p = Σ_i coef_i * Σ_{k<n} body_i(k)  with one common bound n and
+    coefficients free of binders  ->  (n, k, Σ_i coef_i body_i(k)); else None"""
+    bound = None
+    k = T.fresh("k")
+    body = ZERO
+    for m, c in p.terms:
+        sums = [(a, pw) for a, pw in m if a.kind == "sum"]
+        if len(sums) != 1 or sums[0][1] != 1:
+            return None
+        a = sums[0][0]
+        if bound is None:
+            bound = a.args[0]
+        elif not T.equal(bound, a.args[0]):
+            return None
+        rest = Poly({tuple(x for x in m if x[0] is not a): c})
+        body = body + rest * T.instantiate(a, k)
+    if bound is None:
+        return None
+    return bound, k, body
+
+
 def prove_side(kind, what, F, hyps=()):
     """discharge a definedness side condition"""
-    if kind == "pos":
+    if kind in ("pos", "nonzero"):
         p = P(what)
-        if sign_poly(p, F) == "+":
+        sg = sign_poly(p, F)
+        if sg == "+" or (kind == "nonzero" and sg == "-"):
             STATS["sign"] += 1
             return "proved", {"backend": "sign"}
-        return prove(T.cmp_cond("<", ZERO, p), F, hyps)
-    if kind == "nonzero":
-        p = P(what)
-        if sign_poly(p, F) in ("+", "-"):
-            STATS["sign"] += 1
-            return "proved", {"backend": "sign"}
-        return prove(T.cmp_cond("!=", p, ZERO), F, hyps)
+        goal = T.cmp_cond("<", ZERO, p) if kind == "pos" else T.cmp_cond("!=", p, ZERO)
+        st, info = prove(goal, F, hyps)
+        if st == "proved":
+            return st, info
+        ms = merge_sums(p)
+        if ms is not None and sign_poly(ms[0], F) == "+":
+            bound, k, body = ms
+            h2 = list(hyps) + [T.cmp_cond("<=", ZERO, k), T.cmp_cond("<", k, bound)]
+            st2, info2 = prove(T.cmp_cond("<", ZERO, body), F, h2)
+            if st2 == "proved":
+                info2["backend"] += "(summand)"
+                return st2, info2
+            if kind == "nonzero":
+                st2, info2 = prove(T.cmp_cond("<", body, ZERO), F, h2)
+                if st2 == "proved":
+                    info2["backend"] += "(summand)"
+                    return st2, info2
+        return st, info
     if kind == "range":
         e, n = what
         g = T.c_and(T.cmp_cond("<=", ZERO, e), T.cmp_cond("<", e, n))
